@@ -1,5 +1,5 @@
 (** C19 correspondence entries.
-    [entry_c19]: args = line, cursor, then the tree fields printed by harness/src/p_hl.rs
+    [entry_c19]: args = line, cursor, opts, the marker TREE, then the tree fields printed by harness/src/p_hl.rs
       result = [C n (s e k)*] or [PANIC], followed by [H code] (the hypothesis check of
       Spans.v: 0 = the theorems' hypotheses hold for this input).
     [entry_c19spec]: args = line, n, (s e k)* ; result = the decidable spec of Spec.v on
@@ -124,7 +124,7 @@ Definition show_result (r : option (list span)) : list str :=
 
 Definition entry_c19 (a : list str) : list str :=
   match a with
-  | line :: cursor :: t :: r =>
+  | line :: cursor :: _ :: _ :: r =>
       match dec_prog (4 + 2 * length r) r with
       | Some (p, []) =>
           show_result (highlight line (dec_nat cursor) p) ++ [lit "H"; enc_nat (prog_ok line p)]
